@@ -8,7 +8,7 @@ Runtime monitoring, five clauses (DESIGN §6 "C09", reference model R2 = vlib/re
                   central differences at the self-consistent finite-T density; away from the fixed point
                   (P0 = D* + delta) the rank-m Krylov update dP2dt2_m, m = 1..4, against an independent numpy
                   evaluation of the published rank-m kernel update built from finite-difference responses of the
-                  real D[P] map.
+                  real D[P] map, at T_el = 300 K and on a ladder 5-20 kK that reaches fractional occupations.
 (b) fixed point   the REAL XL_BOMD/KSA_XL_BOMD one_step/_propagate_P/circular buffer, driven with the
                   electronic-structure call replaced by a stub that returns D* = P(0) and zero force:
                   every k in 3..9 x every start step i0 in 0..k x a context rebuilt at every step_done;
@@ -62,7 +62,7 @@ REQUIRED_MONITORS = ["consistency_calls_compared", "fixedpoint_steps_checked", "
                      "recurrence_steps_compared", "recurrence_restarts_checked", "real_checkpoint_resumes",
                      "impulse_coefficients_compared", "stability_polynomials_checked", "closed_loop_steps_driven",
                      "stationary_real_steps", "dyn_families_judged", "free_energy_directions_checked",
-                     "krylov_updates_compared"]
+                     "krylov_updates_compared", "krylov_fractional_cases_compared"]
 CASE_TIMEOUT = 900.0
 ORDERS = (3, 4, 5, 6, 7, 8, 9)
 VARIANTS = ("xl", "ksa", "xl_damp")
@@ -93,6 +93,11 @@ TOL_FE = 4e-5
 # looked for (one Krylov direction missing at rank 4) is 7e-4 .. 1e-3 of |f|.
 KQ_H = 1e-4
 TOL_KQ = 1e-6         # |dP2dt2_m - reference_m| / |f|   and   |Krylov_Error_m - reference residual_m|
+# with fractional occupations Canon_DM_PRT is a 2^10-th order recursive expansion of the Fermi response, not the exact
+# derivative: measured 4e-8 .. 1.1e-7 of |f| at 10-20 kK (independent of the FD step, so it is the expansion, not the
+# difference quotient); a response evaluated at another temperature than the density is off by O(1)
+TOL_KQ_FRACTIONAL = 1e-5
+KQ_FRACTIONAL = 1e-3  # a case counts as "fractional" when some occupation is > 1e-3 away from 0/1
 KQ_C1 = (0.2, 5.0)    # rank 1: dP2dt2_1 = c1 * f exactly (update along the residual); c1 = 1/(1 - r/2), |r| < 1
 
 
@@ -175,6 +180,18 @@ def gen_cases(tier, seed):
     for name, method in kq:
         cases.append({"kind": "krylov", "mol": name, "method": method, "T_el": 300.0,
                       "geom_seed": int(g.integers(0, 2**31)), "delta": 1e-3})
+    # electronic-temperature ladder up to clearly fractional occupations: the response that builds the kernel
+    # (Canon_DM_PRT) and the density itself (Fermi_Q) must belong to the SAME temperature
+    if tier == "quick":
+        lad = [("C2H4", "AM1", T) for T in (5000.0, 10000.0, 15000.0, 20000.0)] + \
+              [("H2O", "AM1", 20000.0), ("CH2O", "PM3", 15000.0)]
+    else:
+        lad = [(n, me, T) for n, me in (("C2H4", "AM1"), ("H2O", "AM1"), ("CH2O", "PM3"), ("NH3", "MNDO"),
+                                        ("HCN", "AM1"), ("CH3OH", "PM3"), ("HF", "PM6_SP"))
+               for T in (5000.0, 10000.0, 15000.0, 20000.0)]
+    for name, method, T in lad:
+        cases.append({"kind": "krylov", "mol": name, "method": method, "T_el": T,
+                      "geom_seed": int(g.integers(0, 2**31)), "delta": 1e-3, "full_obs": False})
     # ---- (b)(c)(d) stub-driven, exhaustive: identical in both tiers (the space is finite and is covered)
     for variant in VARIANTS:
         for k in ORDERS:
@@ -944,6 +961,9 @@ def _run_krylov(case):
                 float(torch.as_tensor(mol.Krylov_Error).reshape(-1)[0]))
 
     real = {r: call(P0, r) for r in (1, 2, 3, 4)}
+    occ = run.npy(mol.Fermi_occ)
+    frac = float(np.abs(occ - np.round(occ)).max())     # largest deviation of an occupation from 0/1 at P0
+    fd_h = float(case.get("fd_h", KQ_H))
     D0 = real[1][0]
     f = D0 - P0
     fn = float(np.linalg.norm(f))
@@ -951,7 +971,7 @@ def _run_krylov(case):
         return {"ineligible": "residual D[P0]-P0 vanishes (%.1e): nothing to precondition" % fn}
 
     def resp(v):
-        return (call(P0 + KQ_H * v, 1)[0] - call(P0 - KQ_H * v, 1)[0]) / (2.0 * KQ_H)
+        return (call(P0 + fd_h * v, 1)[0] - call(P0 - fd_h * v, 1)[0]) / (2.0 * fd_h)
 
     def kernel_updates(scale):
         """rank-1..4 updates and residuals of the published algorithm with response = scale * dD/dP"""
@@ -971,13 +991,17 @@ def _run_krylov(case):
         return out
 
     ref = kernel_updates(0.5)        # the package's convention: half of the spin-summed response
-    ref_full = kernel_updates(1.0)   # what the full response would deliver: observation only
+    # what the full response would deliver: observation only (skipped on the temperature ladder to save calls)
+    ref_full = kernel_updates(1.0) if case.get("full_obs", True) else None
     dn = float(np.linalg.norm(delta))
     mg, viol = _Margins(), []
     obs = {"mol": case["mol"], "method": case["method"], "|delta|": dn, "|f|": fn, "ranks": {}}
     witness = {"mol": case["mol"], "method": case["method"], "T_el": case["T_el"], "coords": X.tolist(),
                "delta_seed": case["geom_seed"]}
     ncmp, prev_err = 0, None
+    tol_kq = TOL_KQ if frac <= 1e-9 else TOL_KQ_FRACTIONAL
+    tag = "fractional" if frac > 1e-9 else "integer"
+    obs.update({"T_el": case["T_el"], "max_fractional_occupation": frac, "tolerance": tol_kq})
     for r in (1, 2, 3, 4):
         _, u, kerr = real[r]
         if not np.all(np.isfinite(u)):
@@ -990,14 +1014,15 @@ def _run_krylov(case):
         to_prev = float(np.linalg.norm(u - (ref[r - 1][0] if r > 1 else 0.0)) / fn)
         obs["ranks"][r] = {"|u-ref|/|f|": du, "Krylov_Error": kerr, "ref_residual": ref[r][1],
                            "e_m/|delta|": float(np.linalg.norm(P0 + u - Dstar) / dn),
-                           "e_m/|delta|_if_full_response_were_used": float(np.linalg.norm(P0 + ref_full[r][0] - Dstar) / dn),
+                           "e_m/|delta|_if_full_response_were_used": None if ref_full is None else float(
+                               np.linalg.norm(P0 + ref_full[r][0] - Dstar) / dn),
                            "|u_m-ref_(m-1)|/|f|": to_prev}
-        if mg.upd("a_krylov_update_vs_independent_kernel", du, TOL_KQ):
+        if mg.upd("a_krylov_update_vs_independent_kernel_%s_occ" % tag, du, tol_kq):
             viol.append({"clause": "krylov-update-rank%d" % r, "mech": "ksa-update-differs-from-rank-m-kernel",
-                         "detail": dict(witness, rank=r, rel_deviation=du,
+                         "detail": dict(witness, rank=r, rel_deviation=du, max_fractional_occupation=frac,
                                         rel_distance_to_rank_m_minus_1_reference=to_prev,
                                         norm_update_over_norm_f=float(np.linalg.norm(u) / fn))})
-        if mg.upd("a_krylov_reported_error_vs_independent", de, TOL_KQ):
+        if mg.upd("a_krylov_reported_error_vs_independent_%s_occ" % tag, de, tol_kq):
             viol.append({"clause": "krylov-reported-error-rank%d" % r, "mech": "ksa-reported-kernel-error-differs",
                          "detail": dict(witness, rank=r, reported=kerr, independent=ref[r][1])})
         if prev_err is not None:  # least-squares residual over nested subspaces cannot increase
@@ -1020,8 +1045,11 @@ def _run_krylov(case):
                                         note="c1 = 0 means the auxiliary density is decoupled from D")})
     obs["xl_calls"] = ncalls[0]
     return {"nontrivial": ncmp > 0, "violations": viol, "margins": mg.m,
-            "monitors": {"krylov_updates_compared": ncmp, "krylov_fd_responses": 8, "krylov_xl_calls": ncalls[0]},
-            "cells": ["a/krylov-quality/%s/rank%d" % (case["method"], r) for r in obs["ranks"]], "obs": obs}
+            "monitors": {"krylov_updates_compared": ncmp, "krylov_fd_responses": 8 if ref_full is not None else 4,
+                         "krylov_xl_calls": ncalls[0],
+                         "krylov_fractional_cases_compared": int(ncmp > 0 and frac > KQ_FRACTIONAL)},
+            "cells": ["a/krylov-quality/%s/T%g/%s/rank%d" % (case["method"], case["T_el"], tag, r)
+                      for r in obs["ranks"]], "obs": obs}
 
 
 # =====================================================================================================
